@@ -73,7 +73,7 @@ impl CodeGenerator {
             let num_active_bits = (sparsity * size as f32) as i32;
             for _i in 1..num_active_bits + 1 {
                 loop {
-                    let rand_idx = rng.gen_range(0..size - 1) as usize;
+                    let rand_idx = rng.gen_range(0..size) as usize;
                     // Flip bit if it is still default, select other index otherwise
                     if bool_vector[rand_idx] == default {
                         bool_vector[rand_idx] = !default;
